@@ -236,7 +236,7 @@ class Engine:
             m = re.match(r' as ([\w#]+)$', rest)
             if m: return ('downcast', self._parse_place(base), m.group(1))
             m = re.match(r'\.(\d+): ', rest)
-            if m: return ('field', self._parse_place(base), int(m.group(1)))
+            if m: return ('field', self._parse_place(base), int(m.group(1)), rest[m.end():])
         raise EngineError('place syntax: ' + s)
 
     def place(self, fr, s):
@@ -261,6 +261,7 @@ class Engine:
         if k == 'field':
             c, kk = self._place(fr, p[1]); v = c[kk]
             if v is TRANSP or isinstance(v, UBox): return c, kk
+            if isinstance(v, (Ref, SliceRef)) and len(p) > 3 and p[3].startswith(('std::ptr::Unique<', 'std::ptr::NonNull<', 'Unique<', 'NonNull<', '*const ', '*mut ')): return c, kk      # Box/NonNull internals: transparent
             if isinstance(v, Slots): return v.coro.slots, p[2]
             if isinstance(v, Coro): return v.up, p[2]
             if isinstance(v, (Agg, Enum)): return v.f, p[2]
@@ -691,7 +692,7 @@ class Engine:
         if key in self._res_cache: return self._res_cache[key]
         r = self._resolve(c, args)
         # runtime-dispatched (generic param) results are not cached
-        if not re.match(r'<([A-Z]\w{0,2}|impl [^>]*) as ', c): self._res_cache[key] = r
+        if not re.match(r'<([A-Z]\w{0,2}|impl .*?|dyn .*?|Box<dyn .*?) as ', c): self._res_cache[key] = r
         return r
 
     def _resolve(self, c, args):
@@ -708,7 +709,18 @@ class Engine:
                     info = self.ix.impl_info(f.name)
                     if info and info[0] == trait and type_key(a0) == type_key(x) and not re.fullmatch(r'[A-Z]\w{0,2}', type_key(x)) and self.ix.impl_self_is_ref(f.name): cands.append(f)
                 return cands[0] if len(cands) == 1 else None
-            if x.startswith(('{', 'Pin<', 'Box<dyn', 'dyn ')): return None
+            if x.startswith(('dyn ', 'Box<dyn ')) and args:          # dynamic dispatch: on the runtime type of the receiver
+                v = deref(args[0])
+                while isinstance(v, Agg) and v.ty in ('Box', 'Pin') and v.f: v = deref(v.f[0])
+                ty = getattr(v, 'ty', None)
+                if ty is None or not isinstance(v, (Agg, Enum)): return None
+                f = self._find_impl(meth, trait, ty, len(args))
+                if f is not None:
+                    r0 = args[0]
+                    while isinstance(r0, Ref) and isinstance(r0.get(), Ref): r0 = r0.get()
+                    args[0] = r0 if isinstance(r0, Ref) else Ref([v], 0)
+                return f
+            if x.startswith(('{', 'Pin<')): return None
             xs = type_key(x)
             if re.fullmatch(r'[A-Z]\w{0,2}', xs) and xs in self.env_stack[-1] and not re.fullmatch(r'[A-Z]\w{0,2}', type_key(self.env_stack[-1][xs])):
                 return self._find_impl(meth, trait, type_key(self.env_stack[-1][xs]), len(args))
